@@ -369,7 +369,7 @@ class Exec:
                         n.events = []
                         n.blocks = []
                         if not self.fresh_per_entry:
-                            n.conds = []
+                            n.conds = [("ult", Lf({rs_: 1, 1: -cb_}), True) for (qs_, rs_, sa_, cb_) in q.divs.values()]
                             n.eqs = {}
                         else:
                             n.events = [e for e in q.events if e[0] == "class"]
@@ -880,7 +880,7 @@ class Exec:
         if op in ("shl", "lshr", "ashr"):
             a, s = self.val(p, o[0]), self.val(p, o[1])
             w = I.bits
-            sc = s.const() if not is_word(s) else gf2.is_const(s)
+            sc = self.subst(p, s).const() if not is_word(s) else gf2.is_const(s)
             if sc is None:
                 p.env[k] = [gf2.TOP] * w
                 return
